@@ -126,7 +126,7 @@ def noise_marked(rng, max_lines=10):
 class DocGen:
     """Documents over the documented vocabulary (README + grammar keywords)."""
 
-    def __init__(self, rng, scripts=False, footnotes=True, max_depth=3, attrs_p=0.3, risky=False):
+    def __init__(self, rng, scripts=False, footnotes=True, max_depth=3, attrs_p=0.3, risky=False, corners=0.0):
         self.rng = rng
         self.w = Words(rng, scripts)
         self.footnotes = footnotes
@@ -135,6 +135,7 @@ class DocGen:
         self.fn = 0
         # risky = also emit constructs known to violate some property on the unchanged tree
         self.risky = risky
+        self.corners = corners
 
     def words(self, n=None):
         return self.w.some(n)
@@ -162,9 +163,53 @@ class DocGen:
             return ''
         return self.rng.choice(['.cls', '.a.b', '{status editorial}', '.c{refersTo #x}', '{class z}'])
 
+    def corner(self, ind):
+        """legal but unusual forms: bare keywords, empty elements, headings without nums, odd nums"""
+        rnd = self.rng
+        p = '  ' * ind
+        k = rnd.choice(['xh', 'xh', 'lt', 'hier-empty', 'hier-dash', 'hier-numonly', 'item-bare', 'bullets-bare', 'tc-empty',
+                        'sub-only', 'p-attr', 'num-odd', 'same-num', 'blocks', 'quote', 'fn-unref', 'fn-dup', 'fn-missing'])
+        if k == 'xh':
+            return [p + 'CROSSHEADING']
+        if k == 'lt':
+            return [p + 'LONGTITLE']
+        if k == 'hier-empty':
+            return [p + rnd.choice(HIER)]
+        if k == 'hier-dash':
+            return [p + rnd.choice(HIER) + rnd.choice([' -', ' - ' + self.words(2), ' 1 -', ' - '])]
+        if k == 'hier-numonly':
+            return [p + rnd.choice(HIER) + ' ' + self.num(), p + '  ' + self.words()]
+        if k == 'item-bare':
+            return [p + 'ITEMS', p + '  ITEM', p + '    SUBHEADING ' + self.words(2), p + '    ' + self.words(), p + '  ITEM', p + '  ITEM - ' + self.words(1)]
+        if k == 'bullets-bare':
+            return [p + 'BULLETS', p + '  *', p + '  * ' + self.words(), p + '  ' + self.words(1), p + '  *' + self.words(1)]
+        if k == 'tc-empty':
+            return [p + 'TABLE', p + '  TR', p + '    TC', p + '    TH', p + '      ' + self.words()]
+        if k == 'sub-only':
+            return [p + rnd.choice(HIER) + ' ' + self.num(), p + '  SUBHEADING ' + self.words(2)]
+        if k == 'p-attr':
+            return [p + 'P{class a|style b}.c ' + self.words()]
+        if k == 'num-odd':
+            return [p + rnd.choice(['PARA', 'SEC', 'PART', 'ITEMS\n' + p + '  ITEM']) + ' ' + rnd.choice(['(—)', '...', '(A)', '(a)', 'nn', '2_2', '1.', '1', '(-)', '“2.3“', '3a bis', '§ 5'])]
+        if k == 'same-num':
+            kw = rnd.choice(['PARA', 'SEC', 'SUBSEC', 'LIST'])
+            n = rnd.choice(['1.', '(a)', '1'])
+            return [p + kw + ' ' + n, p + '  ' + self.words(1), p + kw + ' ' + rnd.choice([n, n.upper(), n]), p + '  ' + self.words(1), p + rnd.choice(['BLOCKLIST', kw])] + ([p + '  ITEM 1', p + '    x'] if rnd.random() < 0.5 else [])
+        if k == 'blocks':
+            return [p + 'BLOCKS', p + '  ' + self.words(), p + '  BLOCKS', p + '    ' + self.words()]
+        if k == 'quote':
+            return [p + 'QUOTE', p + '  ' + self.words()]
+        if k == 'fn-unref':
+            return [p + self.words(), p + 'FOOTNOTE 9' + str(rnd.randint(0, 9)), p + '  ' + self.words()]
+        if k == 'fn-dup':
+            return [p + 'FOOTNOTE 1', p + '  ' + self.words(1), p + self.words(1) + '{{FOOTNOTE 1}}' + rnd.choice(['', ' and {{FOOTNOTE 1}}']), p + 'FOOTNOTE 1', p + '  ' + self.words(1)]
+        return [p + self.words() + '{{FOOTNOTE x}}']
+
     def para(self, ind):
         rnd = self.rng
         p = '  ' * ind
+        if self.corners and rnd.random() < self.corners:
+            return self.corner(ind)
         r = rnd.random()
         if r < 0.12:
             return [p + 'P' + rnd.choice(['.x', '{class y}', '']) + ' ' + self.text()]
@@ -300,7 +345,7 @@ class DocGen:
     def attachment(self, ind, depth):
         rnd = self.rng
         p = '  ' * ind
-        out = [p + rnd.choice(ATTACH) + self.attrs() + (' ' + self.text() if rnd.random() < 0.7 else '')]
+        out = [p + rnd.choice(ATTACH) + self.attrs() + (' ' + (self.inline(1) + ' ' if rnd.random() < 0.3 else '') + self.text() if rnd.random() < 0.7 else '')]
         if rnd.random() < 0.3:
             out.append(p + '  SUBHEADING ' + self.text())
         out += self.bodyitems(ind + 1)
